@@ -171,15 +171,15 @@ func (s *socket) onOpen() {
 		s.schedulePing()
 	}
 
-	// only a session that is still being opened becomes open: its transport may
-	// have failed already (its reader runs since setTransport), and closed is final
-	if !s.readyState.CompareAndSwap("opening", "open") {
+	// the open packet (and the initial packet) are queued while the session is
+	// still being opened: packets of the peer are taken from an open session only,
+	// so the reply to a packet of a client that does not wait for the open packet
+	// (the pong to a revision-3 ping) cannot get in front of it
+	if s.ReadyState() != "opening" {
 		utils.ClearTimeout(s.pingIntervalTimer.Load())
 		utils.ClearTimeout(s.pingTimeoutTimer.Load())
 		return
 	}
-	socket_log.Debug("readyState updated from %s to %s", "opening", "open")
-	vhook.Yield("socket.onOpen.open")
 
 	// sends an `open` packet
 	s.Transport().SetSid(s.id)
@@ -208,6 +208,16 @@ func (s *socket) onOpen() {
 		}
 		s.sendPacket(packet.MESSAGE, i, nil, nil)
 	}
+
+	// only a session that is still being opened becomes open: its transport may
+	// have failed already (its reader runs since setTransport), and closed is final
+	if !s.readyState.CompareAndSwap("opening", "open") {
+		utils.ClearTimeout(s.pingIntervalTimer.Load())
+		utils.ClearTimeout(s.pingTimeoutTimer.Load())
+		return
+	}
+	socket_log.Debug("readyState updated from %s to %s", "opening", "open")
+	vhook.Yield("socket.onOpen.open")
 
 	s.Emit("open")
 }
